@@ -3,6 +3,7 @@ the scratch copy of request/path/deserializer.rs."""
 from __future__ import annotations
 
 import hashlib
+import os
 import re
 import subprocess
 from pathlib import Path
@@ -33,8 +34,9 @@ def prepare(sc: Scratch) -> dict:
     for s in specs:
         s.qual = "request::path::deserializer::verif_harness::"
     xg = prepare_extract_group(sc)
+    bg = prepare_bodyq_group(sc)
     return {
-        "extra_groups": [xg],
+        "extra_groups": [xg, bg],
         "pkg_dir": sc.repo / "runtime" / "pavex",
         "target_dir": CACHE / "target-pavex",
         "specs": specs,
@@ -96,6 +98,138 @@ def prepare_extract_group(sc: Scratch) -> dict:
     import shutil as _sh
     _sh.copy(VERIF / "harness" / "nd.rs", pkg / "nd.rs")
     return {"pkg_dir": pkg, "target_dir": CACHE / "target-c15x", "specs": specs, "kani_args": [], "confirm": confirm_extract}
+
+
+# ---------------------------------------------------------------------------------------------
+# third group: the body and query extractors (JsonBody, UrlEncodedBody, QueryParams): real
+# request/body/{json,url_encoded,errors}.rs and request/query/*.rs with the real `mime` crate against
+# opaque-parser shims of serde_json / serde_html_form / form_urlencoded / serde_path_to_error
+# ---------------------------------------------------------------------------------------------
+BDIR = VERIF / "harness" / "bodyq"
+BODY_REL = "runtime/pavex/src/request/body"
+QUERY_REL = "runtime/pavex/src/request/query"
+
+
+def prepare_bodyq_group(sc: Scratch) -> dict:
+    import shutil
+    pkg = sc.root / "h_c15b"
+    if pkg.exists():
+        shutil.rmtree(pkg)
+    pkg.mkdir(parents=True)
+    hcopy = pkg / "c15b.rs"
+    shutil.copy(BDIR / "c15b.rs", hcopy)
+    shutil.copy(VERIF / "harness" / "nd.rs", pkg / "nd.rs")
+    shutil.copy(VERIF / "harness" / "body" / "raw_body.rs", pkg / "raw_body.rs")
+    counts = {}
+    # copies: the files' own #[cfg(test)] modules (insta snapshots) must not join the cfg(test) build of the
+    # native search; buffered_body.rs is de-asynced as in the C14 encoding (only its type is used here)
+    for rel, name, rules in ((BODY_REL, "buffered_body.rs", core.DEASYNC_RULES), (BODY_REL, "json.rs", []), (BODY_REL, "url_encoded.rs", []),
+                             (QUERY_REL, "query_params.rs", [])):
+        src = (sc.repo / rel / name).read_text()
+        new, c = core.rewrite_tokens(src, rules + [(r"#\[cfg\(test\)\]", "#[cfg(any())]")])
+        if name == "buffered_body.rs" and re.search(r"\basync\b|\.\s*await\b", core._mask_non_code(new)):
+            raise core.RewriteError("residual async/.await in buffered_body.rs after the de-async rewrite")
+        (pkg / name).write_text(new)
+        counts[name] = c
+    root = pkg / "root.rs"
+    root.write_text(
+        "#![allow(static_mut_refs, dead_code, unused_imports)]\n"
+        "// stand-in for pavex::Response (only named by the error -> response conversions of errors.rs)\n"
+        "pub struct Response(pub u16);\n"
+        "impl Response {\n"
+        "    pub fn payload_too_large() -> Self { Response(413) }\n"
+        "    pub fn internal_server_error() -> Self { Response(500) }\n"
+        "    pub fn unsupported_media_type() -> Self { Response(415) }\n"
+        "    pub fn bad_request() -> Self { Response(400) }\n"
+        "    pub fn set_typed_body<T>(self, _b: T) -> Self { self }\n"
+        "}\n"
+        f'#[path = "{sc.repo / "runtime/pavex/src/unit.rs"}"]\npub mod unit;\n'
+        "pub mod request {\n"
+        f'    #[path = "{sc.repo / "runtime/pavex/src/request/request_head.rs"}"]\n    mod request_head;\n'
+        "    pub use request_head::RequestHead;\n"
+        "    pub mod body {\n"
+        f'        #[path = "{pkg / "buffered_body.rs"}"]\n        mod buffered_body;\n'
+        f'        #[path = "{sc.repo / BODY_REL / "errors.rs"}"]\n        pub mod errors;\n'
+        f'        #[path = "{sc.repo / BODY_REL / "limit.rs"}"]\n        mod limit;\n'
+        f'        #[path = "{pkg / "raw_body.rs"}"]\n        pub mod raw_body;\n'
+        f'        #[path = "{pkg / "json.rs"}"]\n        mod json;\n'
+        f'        #[path = "{pkg / "url_encoded.rs"}"]\n        mod url_encoded;\n'
+        "        pub use buffered_body::BufferedBody;\n"
+        "        pub use json::JsonBody;\n"
+        "        pub use limit::BodySizeLimit;\n"
+        "        pub use raw_body::RawIncomingBody;\n"
+        "        pub use url_encoded::UrlEncodedBody;\n"
+        "    }\n"
+        "    pub mod query {\n"
+        f'        #[path = "{sc.repo / QUERY_REL / "errors.rs"}"]\n        pub mod errors;\n'
+        f'        #[path = "{pkg / "query_params.rs"}"]\n        mod query_params;\n'
+        "        pub use query_params::QueryParams;\n"
+        "    }\n"
+        "}\n"
+        f'#[cfg(kani)]\n#[path = "{hcopy}"]\nmod verif_c15b;\n')
+    toml = (BDIR / "Cargo.toml.in").read_text()
+    if os.environ.get("VERIF_C15B_REAL_MIME"):       # probe only: the real mime crate instead of the shim
+        toml = toml.replace('mime = { path = "@SHIMS@/c15b/mime" }', 'mime = "0.3"')
+    (pkg / "Cargo.toml").write_text(toml.replace("@ROOT@", str(root)).replace("@SHIMS@", str(VERIF / "shims")))
+    specs = parse_harness_specs((BDIR / "c15b.rs").read_text())
+    for s in specs:
+        s.qual = "verif_c15b::"
+    return {"pkg_dir": pkg, "target_dir": CACHE / "target-c15b", "specs": specs, "kani_args": [], "confirm": confirm_bodyq,
+            "rewrites": {"c15b": counts}}
+
+
+def _native_replay_bodyq(sc: Scratch, script_path: Path, log_path: Path) -> tuple[bool | None, str]:
+    """Append the replay module to the scratch copy of the real request/body/json.rs and run it as a unit test
+    of the real pavex crate (real mime, serde_json, serde_html_form). True = the real code misbehaves."""
+    target = sc.repo / BODY_REL / "json.rs"
+    src = target.read_text()
+    if "mod verif_replay_c15b" not in src:
+        target.write_text(src + "\n" + (BDIR / "replay_native.rs").read_text())
+    env = env_offline()
+    env["VERIF_C15B_SCRIPT"] = str(Path(script_path).resolve())
+    env["RUSTFLAGS"] = "--cfg verif_replay"
+    env["CARGO_TARGET_DIR"] = str(CACHE / "target-native-pavex")
+    p = subprocess.run(["cargo", "test", "--offline", "-p", "pavex", "--lib", "verif_replay_c15b", "--", "--nocapture", "--test-threads", "1"],
+                       cwd=sc.repo, env=env, stdout=subprocess.PIPE, stderr=subprocess.STDOUT, text=True)
+    log_path.parent.mkdir(parents=True, exist_ok=True)
+    log_path.write_text(p.stdout)
+    m = re.search(r"C15B-REPLAY (REPRODUCED|NOT-REPRODUCED|MALFORMED)(.*)$", p.stdout, re.M)
+    if not m:
+        return None, "the native replay did not run (see %s)" % log_path
+    return {"REPRODUCED": True, "NOT-REPRODUCED": False}.get(m.group(1)), m.group(0)
+
+
+def confirm_bodyq(sc: Scratch, g: dict, r: HarnessResult, log_dir: Path) -> dict:
+    import json, os
+    from .. import session
+    role = f"{r.spec.name}: " + "; ".join(sorted({c["description"] for c in r.failed}))
+    finds = session.native_search(g, r.spec.name, log_dir / f"{r.spec.name}.native-search.log", int(os.environ.get("VERIF_SEED", "0") or 0))
+    rep_dir = VERIF / "replays" / "generated" / PID
+    rep_dir.mkdir(parents=True, exist_ok=True)
+    first = None
+    seen = set()
+    for tr in finds:
+        recs = [l for l in tr if l.get("kind") == "c15b"]
+        if not recs:
+            continue
+        script = {k: recs[0][k] for k in ("extractor", "header", "other_first", "bytes", "parser_fails")}
+        script["_origin"] = {"harness": r.spec.name, "failed": role}
+        h = hashlib.sha256(json.dumps(script, sort_keys=True).encode()).hexdigest()[:12]
+        if h in seen:
+            continue
+        seen.add(h)
+        rep = rep_dir / f"{r.spec.name}-{h}.json"
+        rep.write_text(json.dumps(script, indent=1) + "\n")
+        first = first or rep
+        ok, detail = _native_replay_bodyq(sc, rep, log_dir / f"{r.spec.name}.native.log")
+        if ok is True:
+            return {"reproduced": True, "replay": str(rep), "role": role, "detail": detail}
+        if rep != first:
+            rep.unlink(missing_ok=True)
+    if first is not None:
+        return {"reproduced": False, "replay": str(first), "role": role,
+                "detail": f"{len(finds)} concrete failing inputs of the shim build do not misbehave on the real crate"}
+    return {"reproduced": None, "role": role, "detail": "native search found no failing input"}
 
 
 def _native_replay_extract(sc: Scratch, script_path: Path, log_path: Path) -> tuple[bool | None, str]:
@@ -202,8 +336,10 @@ def _apply_and_play(sc: Scratch, test: str, log_path: Path) -> tuple[bool | None
 
 def replay(path: Path) -> int:
     if path.suffix == ".json":
+        import json as _json
+        is_bodyq = "extractor" in _json.loads(path.read_text())
         with Scratch(PID + "-replay") as sc:
-            ok, detail = _native_replay_extract(sc, path, CACHE / "logs" / PID / "replay.native.log")
+            ok, detail = (_native_replay_bodyq if is_bodyq else _native_replay_extract)(sc, path, CACHE / "logs" / PID / "replay.native.log")
         log(f"replay {path}: {detail}")
         if ok is True:
             print(f"VIOLATION property={PID} replay={path}", flush=True)
